@@ -453,10 +453,15 @@ def run_check(mod, tier, seed, replay=None):
         seen_sig.add(sig)
         reported_unknown += 1
 
-        def still_fails(c, fam=fam):
+        crashed = isinstance(failure, str) and failure.startswith("implementation run did not complete")
+
+        def still_fails(c, fam=fam, crashed=crashed):
             io, mo = eval_family(modname, fam, [c], with_model=False)
             f, _ = judge(fam, c, io[0], mo[0])
-            return f is not None and fam.known(c, io[0], f) is None
+            if f is None or fam.known(c, io[0], f) is not None:
+                return False
+            # a candidate that merely breaks the driver (e.g. by dropping a destination it needs) is not a smaller failing case
+            return crashed or not (isinstance(f, str) and f.startswith("implementation run did not complete"))
         small = try_shrink(modname, fam, case, still_fails)
         if small is not case:
             io, mo = eval_family(modname, fam, [small])
